@@ -290,7 +290,7 @@ Note: An ecc structure repair does NOT allow to recover from more errors on your
                     db.seek(marker_pos[0])
                     if verbose:
                         ptee.write("- Found marker by index file: type=%i content=" % (marker_type))
-                        ptee.write(db.read(len(markers[marker_type-1])+4))
+                        ptee.write(str(db.read(len(markers[marker_type-1])+4))) # the ecc file is read as bytes: convert for the text log (else TypeError, and the recovery is aborted)
                         db.seek(marker_pos[0]) # replace the reading cursor back in place before the marker
                     if current_marker != markers[marker_type-1]: # check if we really need to repair this marker
                         # Rewrite the marker over the ecc file
